@@ -3,7 +3,7 @@
    harness/py2gal.py with the configurations C13_SAMPLE_SEG ... of harness/src_functions.py), for all inputs. *)
 From Coq Require Import ZArith List Bool Arith Lia ZifyBool Permutation.
 From Batchie Require Import Lib.Sexp Lib.PyRt Model.Encode Model.Screen Model.Retro Model.RetroHoldout
-  Generated.SrcRetro Generated.SrcRetroGen Proofs.PyRtLemmas Proofs.C11Lib Proofs.C11Select Proofs.C13SampleSeg Proofs.C13Optimal.
+  Generated.SrcRetro Generated.SrcRetroGen Proofs.PyRtLemmas Proofs.C11Lib Proofs.C11Select Proofs.C13SampleSeg Proofs.C13Optimal Proofs.C13NPlate Proofs.C13SparseTerm Proofs.C11Source.
 Import ListNotations.
 Open Scope nat_scope.
 
@@ -34,6 +34,11 @@ Qed.
 Lemma enum_from_repeat {A B} (h : nat -> A -> B) (a : A) : forall n k,
   map (fun ix => h (fst ix) (snd ix)) (enum_from k (repeat a n)) = map (fun i => h i a) (seq k n).
 Proof. induction n as [|n IH]; intros k; [reflexivity|]. cbn [repeat enum_from map seq fst snd]. f_equal. apply IH. Qed.
+
+Lemma filter_true {A} : forall l : list A, filter (fun _ => true) l = l.
+Proof. induction l as [|a l IH]; [reflexivity|]. cbn [filter]. now rewrite IH. Qed.
+Lemma filter_false {A} : forall l : list A, filter (fun _ => false) l = [].
+Proof. induction l as [|a l IH]; [reflexivity|exact IH]. Qed.
 
 (* ---------- SampleSegregatingPermutationPlateGenerator._generate_plates ---------- *)
 (* ceil(a / b) for b > 0, as the model writes it *)
@@ -333,4 +338,226 @@ Proof.
   rewrite (size_for (Z.of_nat (optimal_size (plate_sizes rows))) rows) by (intros; reflexivity).
   destruct (size_results _ (length rows) rows (plate_names_of rows) ds) as [[vs ds']|e]; cbn [res_bind fst snd app]; [|reflexivity].
   rewrite (res_fold_pure _ vor) by reflexivity. reflexivity.
+Qed.
+
+(* ---------- NPlatePerCellLineSmoother._get_plate_sample_id / ._smooth_plates ---------- *)
+Theorem src_nplate_get_plate_sample_id_is_model : forall rows p,
+  src_nplate_get_plate_sample_id rows (plate_vec p rows) = dor nm <- plate_sample p rows; Ok (sample_id_z rows nm).
+Proof.
+  intros rows p. unfold src_nplate_get_plate_sample_id, plate_sample, plate_unique_sample_ids, plate_unique_samples, plate_samples, zlen.
+  rewrite vselect_plate_vec.
+  destruct (sort_uniq name_cmp (map r_sample (filter (in_plate p) rows))) as [|x [|y l]]; cbn [map length first_item res_bind];
+    try reflexivity.
+  destruct (Z.of_nat (S (S (length (map (sample_id_z rows) l)))) >? 1)%Z eqn:E; [reflexivity|]. lia.
+Qed.
+
+(* the integer ids are injective on the sample names of the screen *)
+Lemma index_of_nth : forall x l, In x l -> nth_error l (index_of x l) = Some x.
+Proof.
+  intros x. induction l as [|y l IH]; intros H; [contradiction|]. cbn [index_of].
+  destruct (name_eqb x y) eqn:E; [apply name_eqb_eq in E; now subst|].
+  destruct H as [->|H]; [rewrite name_eqb_refl in E; discriminate|]. cbn [nth_error]. now apply IH.
+Qed.
+Lemma sample_id_z_inj : forall rows a b, In a (sample_names rows) -> In b (sample_names rows) ->
+  sample_id_z rows a = sample_id_z rows b -> a = b.
+Proof.
+  intros rows a b Ha Hb E. unfold sample_id_z, sample_id in E. apply Nat2Z.inj in E.
+  pose proof (index_of_nth a _ Ha) as H1. pose proof (index_of_nth b _ Hb) as H2. congruence.
+Qed.
+Lemma sample_id_z_eqb : forall rows a b, In a (sample_names rows) -> In b (sample_names rows) ->
+  (sample_id_z rows a =? sample_id_z rows b)%Z = name_eqb a b.
+Proof.
+  intros rows a b Ha Hb. destruct (name_eqb a b) eqn:E.
+  - apply name_eqb_eq in E. subst. apply Z.eqb_refl.
+  - apply Z.eqb_neq. intros H. apply sample_id_z_inj in H; [|assumption|assumption]. subst. rewrite name_eqb_refl in E. discriminate.
+Qed.
+
+(* the model's name-keyed counts, as the dict of the source (keys = integer ids) *)
+Definition enc_counts (rows : list row) (counts : list (name * nat)) : list (Z * Z) :=
+  map (fun kc => (sample_id_z rows (fst kc), Z.of_nat (snd kc))) counts.
+
+Lemma dict_incr_count_add : forall rows s counts, In s (sample_names rows) ->
+  Forall (fun kc => In (fst kc) (sample_names rows)) counts ->
+  dict_incr (enc_counts rows counts) (sample_id_z rows s) 1 = enc_counts rows (count_add s counts).
+Proof.
+  intros rows s counts Hs. induction counts as [|[k c] counts IH]; intros HF; [reflexivity|].
+  inversion HF as [|? ? Hk HF']; subst. cbn [fst] in Hk. cbn [enc_counts map dict_incr count_add fst snd].
+  rewrite (sample_id_z_eqb rows k s Hk Hs). destruct (name_eqb k s); cbn [map fst snd].
+  - f_equal. f_equal. lia.
+  - f_equal. apply IH. exact HF'.
+Qed.
+
+Lemma count_add_keys : forall (P : name -> Prop) s counts, P s ->
+  Forall (fun kc => P (fst kc)) counts -> Forall (fun kc : name * nat => P (fst kc)) (count_add s counts).
+Proof.
+  intros P s counts Hs. induction counts as [|[k c] counts IH]; intros HF; cbn [count_add].
+  - constructor; [exact Hs|constructor].
+  - inversion HF; subst. destruct (name_eqb k s); constructor; auto.
+Qed.
+
+Lemma counts_fold : forall rows sps acc, Forall (fun s => In s (sample_names rows)) sps ->
+  Forall (fun kc => In (fst kc) (sample_names rows)) acc ->
+  fold_left (fun d s => dict_incr d (sample_id_z rows s) 1) sps (enc_counts rows acc)
+  = enc_counts rows (fold_left (fun a s => count_add s a) sps acc)
+  /\ Forall (fun kc => In (fst kc) (sample_names rows)) (fold_left (fun a s => count_add s a) sps acc).
+Proof.
+  intros rows sps. induction sps as [|s sps IH]; intros acc HS HA; cbn [fold_left]; [auto|].
+  inversion HS; subst. rewrite dict_incr_count_add by assumption. apply IH; [assumption|].
+  now apply (count_add_keys (fun k => In k (sample_names rows))).
+Qed.
+
+Lemma plate_sample_in_names : forall p rows s, plate_sample p rows = Ok s -> In s (sample_names rows).
+Proof.
+  intros p rows s H. apply plate_sample_ok in H.
+  assert (In s (plate_samples p rows)) as Hin by (rewrite H; now left).
+  apply In_plate_samples in Hin as (r & Hr & _ & Hs). apply In_sample_names. eauto.
+Qed.
+
+(* the counting loop, for an arbitrary body equal to the canonical one *)
+Lemma np_count_loop (rows : screen_t) (f : list (Z * Z) -> bvec -> result (list (Z * Z))) :
+  (forall d v, f d v = dor id <- src_nplate_get_plate_sample_id rows v; Ok (dict_incr d id 1)) ->
+  forall plates d,
+    res_fold f (map (fun p => plate_vec p rows) plates) d
+    = dor sps <- res_map_all (fun p => plate_sample p rows) plates;
+      Ok (fold_left (fun d s => dict_incr d (sample_id_z rows s) 1) sps d).
+Proof.
+  intros Hf. induction plates as [|p plates IH]; intros d; cbn [map res_fold res_map_all res_bind fold_left]; [reflexivity|].
+  rewrite Hf, src_nplate_get_plate_sample_id_is_model.
+  destruct (plate_sample p rows) as [s|t]; cbn [res_bind]; [|reflexivity].
+  rewrite IH. destruct (res_map_all (fun p0 => plate_sample p0 rows) plates) as [sps|t]; reflexivity.
+Qed.
+
+(* the drop loop over the dict's items, for an arbitrary body equal to the canonical one *)
+Lemma np_drop_loop (m : Z) (rows : screen_t) (f : screen_t -> Z * Z -> result screen_t) :
+  (forall scr id c, f scr (id, c) =
+     dor s' <- (if (c <? m)%Z then
+                  dor nm <- list_get (sample_names rows) id;
+                  Ok (to_screen (subset_of scr (sample_name_ne scr nm)))
+                else Ok scr);
+     Ok s') ->
+  forall counts scr, Forall (fun kc => In (fst kc) (sample_names rows)) counts ->
+    res_fold f (enc_counts rows counts) scr
+    = Ok (filter (fun r => negb (name_mem (r_sample r) (map fst (filter (fun kc => (Z.of_nat (snd kc) <? m)%Z) counts)))) scr).
+Proof.
+  intros Hf. induction counts as [|[k c] counts IH]; intros scr HF; cbn [enc_counts map res_fold filter fst snd].
+  - f_equal. symmetry. rewrite (filter_ext _ (fun _ => true)) by reflexivity. apply filter_true.
+  - inversion HF as [|? ? Hk HF']; subst. cbn [fst] in Hk. rewrite Hf.
+    destruct (Z.of_nat c <? m)%Z eqn:E; cbn [res_bind map fst].
+    + unfold sample_id_z, sample_id, list_get.
+      destruct (Z.of_nat (index_of k (sample_names rows)) <? 0)%Z eqn:E0; [lia|]. rewrite E0, Nat2Z.id, (index_of_nth k _ Hk).
+      cbn [res_bind]. fold (enc_counts rows counts). rewrite (IH _ HF'). f_equal.
+      unfold to_screen, subset_of, sample_name_ne. rewrite <- filter_vselect, filter_filter'.
+      apply filter_ext. intros r. cbn [name_mem existsb]. now rewrite negb_orb.
+    + fold (enc_counts rows counts). apply (IH _ HF').
+Qed.
+
+Theorem src_nplate_is_model : forall m rows, src_nplate_smooth_plates m rows = nplate true m rows.
+Proof.
+  intros m rows. unfold src_nplate_smooth_plates, nplate, plate_counts, plates_of, dict_items.
+  rewrite (np_count_loop rows) by (intros; reflexivity).
+  destruct (res_map_all (fun p => plate_sample p rows) (plate_names_of rows)) as [sps|t] eqn:E; cbn [res_bind]; [|reflexivity].
+  assert (Forall (fun s => In s (sample_names rows)) sps) as HS.
+  { apply res_map_all_Forall2 in E. induction E as [|p s ps ss Hp _ IH]; constructor; [|exact IH].
+    eapply plate_sample_in_names; eassumption. }
+  destruct (counts_fold rows sps [] HS (Forall_nil _)) as [Hc HK]. change (enc_counts rows []) with (@nil (Z * Z)) in Hc. rewrite Hc.
+  rewrite (np_drop_loop m rows) by (first [intros; reflexivity | exact HK]). reflexivity.
+Qed.
+
+(* ---------- BatchieEnsemblePlateSmoother._smooth_plates ---------- *)
+Lemma wrap_ext : forall (f g : inner) rows ds,
+  (forall d, f (unobserved rows) d = g (unobserved rows) d) -> wrap f rows ds = wrap g rows ds.
+Proof. intros f g rows ds H. unfold wrap. now rewrite H. Qed.
+
+Lemma unobserved_length : forall rows, length (unobserved rows) <= length rows.
+Proof. intros. unfold unobserved. apply filter_len_le. Qed.
+
+Theorem src_ensemble_is_model : forall ms n m rows ds fuel, length rows < fuel ->
+  src_ensemble_smooth_plates ms n m rows ds fuel = ensemble true ms n m rows ds.
+Proof.
+  intros ms n m rows ds fuel Hfuel. unfold src_ensemble_smooth_plates, ensemble.
+  rewrite src_smooth_plates_is_wrap.
+  rewrite (wrap_ext _ (merge_min ms)) by (intro d; apply src_merge_min_is_model; pose proof (unobserved_length rows); lia).
+  destruct (wrap (merge_min ms) rows ds) as [[s1 d1]|t]; cbn [res_bind]; [|reflexivity].
+  rewrite src_smooth_plates_is_wrap.
+  rewrite (wrap_ext _ (pure_sm (merge_tb n))) by (intro d; unfold pure_sm; now rewrite src_merge_tb_is_model).
+  destruct (wrap (pure_sm (merge_tb n)) s1 d1) as [[s2 d2]|t]; cbn [res_bind]; [|reflexivity].
+  rewrite src_smooth_plates_is_wrap.
+  rewrite (wrap_ext _ optimal_smooth) by (intro d; apply src_optimal_size_is_model).
+  destruct (wrap optimal_smooth s2 d2) as [[s3 d3]|t]; cbn [res_bind]; [|reflexivity].
+  rewrite src_smooth_plates_is_wrap.
+  rewrite (wrap_ext _ (pure_sm (nplate true m))) by (intro d; unfold pure_sm; now rewrite src_nplate_is_model).
+  destruct (wrap (pure_sm (nplate true m)) s3 d3) as [[s4 d4]|t]; reflexivity.
+Qed.
+
+(* ---------- PlatePermutationPlateGenerator._generate_plates ---------- *)
+Lemma construct_unmasked : forall l, (forall r, In r l -> r_mask r = false) -> construct l = Ok l.
+Proof.
+  intros l H. unfold construct. rewrite plate_uniform_of_agree; [reflexivity|].
+  intros r1 r2 H1 H2 _. now rewrite (H r1 H1), (H r2 H2).
+Qed.
+
+Lemma existsb_negb_repeat_true : forall n, existsb negb (repeat true n) = false.
+Proof. induction n as [|n IH]; [reflexivity|exact IH]. Qed.
+Lemma vselect_repeat_true {A} : forall l : list A, vselect (repeat true (length l)) l = l.
+Proof. induction l as [|a l IH]; [reflexivity|]. cbn [length repeat vselect]. now rewrite IH. Qed.
+Lemma map_const_true {A} : forall l : list A, map (fun _ => true) l = repeat true (length l).
+Proof. induction l as [|a l IH]; [reflexivity|]. cbn [map length repeat]. now rewrite IH. Qed.
+Lemma filter_negb_none {A} (f : A -> bool) : forall l, existsb negb (map f l) = false -> filter (fun x => negb (f x)) l = [].
+Proof.
+  induction l as [|a l IH]; intros H; [reflexivity|]. cbn [map existsb] in H. apply orb_false_iff in H as [H1 H2].
+  cbn [filter]. rewrite H1. now apply IH.
+Qed.
+
+(* what both branches go on with: the rows to permute and (None when there are none) the rows left alone *)
+Lemma plate_perm_tail : forall (tp np : list row) ds,
+  (dor (names, d) <- permutation_names (map r_plate tp) ds;
+   dor permuted <- screen_renamed tp names;
+   if is_some (if Retro.is_nil np then None else Some np) then
+     dor u <- unwrap (if Retro.is_nil np then None else Some np);
+     dor c <- combine_screens permuted u; Ok (c, d)
+   else Ok (permuted, d))
+  = dor x <- take_names ds;
+    let '(names, ds') := x in
+    if negb (length names =? length tp) then Err 91%Z
+    else dor c <- construct (map (fun x => set_mask false (set_plate (fst x) (snd x))) (combine names tp) ++ np); Ok (c, ds').
+Proof.
+  intros tp np ds. unfold permutation_names. destruct (take_names ds) as [[names d]|t]; cbn [res_bind]; [|reflexivity].
+  unfold screen_renamed. destruct (negb (length names =? length tp)); cbn [res_bind]; [reflexivity|].
+  rewrite construct_unmasked by (intros r Hr; apply in_map_iff in Hr as (x & <- & _); reflexivity). cbn [res_bind].
+  destruct np as [|r np]; cbn [Retro.is_nil is_some unwrap res_bind].
+  - rewrite app_nil_r.
+    rewrite construct_unmasked by (intros r Hr; apply in_map_iff in Hr as (x & <- & _); reflexivity). reflexivity.
+  - unfold combine_screens. destruct (construct _); reflexivity.
+Qed.
+
+Theorem src_plate_permutation_is_model : forall force rows ds,
+  src_plate_permutation_generate_plates force rows ds
+  = plate_perm (match force with Some l => l | None => [] end) rows ds.
+Proof.
+  intros force rows ds. unfold src_plate_permutation_generate_plates, plate_perm.
+  assert (forall keepf : row -> bool,
+            (dor (tp, np) <- (if existsb negb (map keepf rows)
+                              then Ok (to_screen (subset_of rows (map keepf rows)),
+                                       Some (to_screen (subset_of rows (map negb (map keepf rows)))))
+                              else Ok (to_screen (subset_of rows (map keepf rows)), None));
+             dor (names, d) <- permutation_names (map r_plate tp) ds;
+             dor permuted <- screen_renamed tp names;
+             if is_some np then dor u <- unwrap np; dor c <- combine_screens permuted u; Ok (c, d) else Ok (permuted, d))
+            = dor x <- take_names ds;
+              let '(names, ds') := x in
+              if negb (length names =? length (filter keepf rows)) then Err 91%Z
+              else dor c <- construct (map (fun x => set_mask false (set_plate (fst x) (snd x))) (combine names (filter keepf rows))
+                                       ++ filter (fun r => negb (keepf r)) rows); Ok (c, ds')) as Hcore.
+  { intros keepf. unfold to_screen, subset_of. rewrite map_map, <- !filter_vselect.
+    rewrite <- (plate_perm_tail (filter keepf rows) (filter (fun r => negb (keepf r)) rows) ds).
+    destruct (existsb negb (map keepf rows)) eqn:E; cbn [res_bind].
+    - destruct (filter (fun r => negb (keepf r)) rows) as [|r0 np] eqn:En; [|reflexivity].
+      exfalso. apply existsb_exists in E as (b & Hb & Hn). apply in_map_iff in Hb as (r & <- & Hr).
+      assert (In r (filter (fun r => negb (keepf r)) rows)) as Hin by (apply filter_In; split; assumption).
+      rewrite En in Hin. contradiction.
+    - rewrite (filter_negb_none keepf rows E). reflexivity. }
+  destruct force as [[|x l]|].
+  - rewrite <- (map_const_true rows). exact (Hcore (fun _ => true)).
+  - exact (Hcore (fun r => negb (name_mem (r_plate r) (x :: l)))).
+  - rewrite <- (map_const_true rows). exact (Hcore (fun _ => true)).
 Qed.
